@@ -1458,16 +1458,25 @@ func gridLayout(context *layoutContext, box_ Box, bottomSpace pr.Float, skipStac
 	hasBroken := false
 	for i := skipRow; i < len(rowsPositions); i++ {
 		rowY := rowsPositions[i]
-		// TODO: Check that page is not empty.
 		if context.overflowsPage(bottomSpace, rowY-skipHeight) {
-			if i == 0 {
+			if i == 0 && !pageIsEmpty {
 				return nil, blockLayout{nil, nil, tree.PageBreak{Break: "any"}, false}
 			}
-			resumeRow = i - 1
-			resumeAt = tree.ResumeStack{i - 1: nil}
+			// the row before the overflowing one is pushed to the next page
+			first := i - 1
+			if pageIsEmpty && first <= skipRow {
+				// no row would be left on this empty page, and the same thing
+				// would happen on the next one : keep one row to make progress
+				if i == skipRow {
+					continue
+				}
+				first = i
+			}
+			resumeRow = first
+			resumeAt = tree.ResumeStack{first: nil}
 			for _, child := range children {
 				_, y, _, _ := childrenPositions[child].unpack()
-				if skipRow <= y && y <= i-2 {
+				if skipRow <= y && y <= first-1 {
 					thisPageChildren = append(thisPageChildren, child)
 				}
 			}
